@@ -832,6 +832,19 @@ def prep_dataflow(ctx):
     ctx.ob("KEYS-2", "prep_afqmc -> write_dqmc: ms is the molecule's spin and the file is the one the set-up reads",
            ms is not None and ms.op == "attr" and ms.args[1] == "spin" and fn_ is not None and is_const(fn_, "FCIDUMP_chol"),
            f"ms = {show(ms, maxdepth=1)[:40] if ms is not None else None}, filename = {show(fn_) if fn_ is not None else None}", pa)
+    # the one-body integrals are the mean-field object's own (mf.get_hcore()): a mean field whose core Hamiltonian was
+    # customised (mf.get_hcore = lambda *a: h, the idiom finite_difference_properties itself uses for an external field)
+    # was optimised with that operator; rebuilding hcore from the molecule (pyscf's module-level scf.hf.get_hcore(mol))
+    # writes a Hamiltonian the orbitals and the reference energy do not belong to
+    rebuilt = [x for x in subterms(h1) if x.op == "call" and (func_name(x) or "").endswith(".get_hcore")
+               and x.args[0].op != "attr"]
+    own = [x for x in subterms(h1) if x.op == "call" and x.args[0].op == "attr" and x.args[0].args[1] == "get_hcore"]
+    if rebuilt or own:
+        ctx.ob("KEYS-2", "prep_afqmc: the one-body integrals are taken from the mean-field object (mf.get_hcore())",
+               not rebuilt, (f"{show(rebuilt[0], maxdepth=2)[:70]} rebuilds the core Hamiltonian from the molecule: a customised "
+                             f"mf.get_hcore is ignored") if rebuilt else f"{len(own)} get_hcore() call(s) on the mean-field object", pa)
+    else:
+        ctx.rep.note("prep_afqmc: no get_hcore call reaches the written hcore; the source of the one-body integrals is not judged")
     # frozen core: everything switches to the active space together
     eff = [x for x in subterms(h1) if x.op == "call" and x.args[0].op == "attr" and x.args[0].args[1] == "get_h1eff"]
     ctx.ob("KEYS-2", "prep_afqmc: the frozen-core branch takes hcore from an active-space object (get_h1eff)",
